@@ -10,5 +10,5 @@ git apply "$patch"
 cd /verif
 ./check C18 > /tmp/try_benign_first.log 2>&1   # warms the facts once
 grep -E "VIOLATION|instance|checker error" /tmp/try_benign_first.log | cut -c1-400
-printf "C01\nC02\nC03\nC04\nC05\nC06\nC07\nC08\nC09\nC10\nC11\nC12\nC14\nC16\nC17\nC19\nC20\n" | xargs -P 6 -I{} sh -c './check {} 2>&1 | grep -E "VIOLATION|instance|checker error|^C[0-9]+ \[" | cut -c1-400' | grep -vE "0 new violations"
+printf "C01\nC02\nC03\nC04\nC05\nC06\nC07\nC08\nC09\nC10\nC11\nC12\nC13\nC14\nC15\nC16\nC17\nC19\nC20\n" | xargs -P 6 -I{} sh -c './check {} 2>&1 | grep -E "VIOLATION|instance|checker error|^C[0-9]+ \[" | cut -c1-400' | grep -vE "0 new violations"
 cd /repo; git checkout -- . ; git clean -fdq -- src tests; git status --short | head -3
